@@ -63,6 +63,7 @@ type Config struct {
 	Clean    bool `json:"clean"`
 	ReadBuf  int  `json:"readbuf"`
 	NoPause  bool `json:"nopause"`
+	LazyExch bool `json:"lazyexch"` // the application does not read its exchange channels until the end
 	Volatile bool `json:"volatile"`
 	WaitMin  int  `json:"waitmin_ms"`
 	WaitMax  int  `json:"waitmax_ms"`
@@ -94,8 +95,17 @@ type Random struct {
 	// Gens are the process sets of the generations after a stop (one stop + adopt per entry).
 	Gens  []map[string]ProcSpec `json:"gens"`
 	PStop float64               `json:"pstop"`
+	// Burst: the named process stays parked until step At, then runs alone until it blocks or ends
+	// (Close / Disconnect issued at a chosen gate of the others and completed without interference).
+	Burst *Burst `json:"burst,omitempty"`
 	// Damage lists store damages applied between a stop and the following adopt.
 	Damage []Step `json:"damage"`
+}
+
+// Burst see Random.Burst.
+type Burst struct {
+	P  string `json:"p"`
+	At int    `json:"at"`
 }
 
 // Inbound is a broker-to-client publication.
@@ -126,6 +136,7 @@ type Exec struct {
 	lastSig   string
 	limit     time.Duration
 	gated     atomic.Bool
+	finishing bool
 	deadConns map[int]bool    // connections of stopped incarnations
 	baseline  map[string]bool // goroutines (by id) left behind by earlier executions in this process
 }
@@ -277,6 +288,12 @@ func Run(b *Behaviour) (events []sim.Ev) {
 		return nil
 	}
 	x.Store.OnOp = x.storeEvent
+	if b.Random != nil {
+		lrng := rand.New(rand.NewSource(b.Random.Seed + 17))
+		x.Store.ListOrder = func(keys []uint) {
+			lrng.Shuffle(len(keys), func(i, j int) { keys[i], keys[j] = keys[j], keys[i] })
+		}
+	}
 	defer func() {
 		if r := recover(); r != nil {
 			x.emit(sim.Ev{"e": "harness-panic", "msg": fmt.Sprint(r)})
@@ -524,6 +541,9 @@ func firstFrame(stack string) string {
 
 // pollExchanges records what arrived on the exchange channels.
 func (x *Exec) pollExchanges() {
+	if x.B.Cfg.LazyExch && !x.finishing {
+		return
+	}
 	x.mu.Lock()
 	list := append([]*exch(nil), x.exchs...)
 	x.mu.Unlock()
@@ -914,6 +934,7 @@ func (x *Exec) reportStuck(phase string) {
 }
 
 func (x *Exec) finish() {
+	x.finishing = true
 	x.pollExchanges()
 	time.Sleep(2 * time.Millisecond)
 	leaks := []any{}
@@ -939,6 +960,7 @@ func (x *Exec) randomRun(r *Random) {
 	faults := r.Faults
 	last := ""
 	settle := 0
+	stalled := map[string]int{} // consecutive deadline expiries given to a reading process
 	inbound := append([]Inbound(nil), r.Inbound...)
 	gens := append([]map[string]ProcSpec(nil), r.Gens...)
 	for n := 0; n < r.Max; n++ {
@@ -948,8 +970,29 @@ func (x *Exec) randomRun(r *Random) {
 			time.Sleep(200 * time.Microsecond)
 		}
 		parked := x.W.S.AllParked()
+		if r.Burst != nil && n >= r.Burst.At {
+			// run the burst process alone
+			b := r.Burst.P
+			r.Burst = nil
+			for k := 0; k < 40; k++ {
+				g, _ := x.W.S.WaitParked(b, 5*time.Millisecond)
+				if g == nil {
+					break
+				}
+				o := sched.Outcome{Kind: "ok"}
+				x.emit(sim.Ev{"e": "step", "i": n + 1, "p": b, "at": g.Site, "o": "ok", "n": 0, "burst": true})
+				x.W.S.Release(b, o)
+			}
+			x.pollExchanges()
+			x.sampleSignals()
+			last = ""
+			continue
+		}
 		var names []string
 		for name, g := range parked {
+			if r.Burst != nil && name == r.Burst.P {
+				continue
+			}
 			if g.Kind == "read" {
 				c := x.W.Conn(g.Info["c"].(int))
 				if c != nil && c.Pending() == 0 && c.Readable() == "" {
@@ -1019,7 +1062,7 @@ func (x *Exec) randomRun(r *Random) {
 				if rng.Float64() < r.PBreak {
 					faults--
 					o.Kind = "err"
-				} else if g.Info["armed"].(bool) && rng.Float64() < r.PStall {
+				} else if g.Info["armed"].(bool) && (rng.Float64() < r.PStall || (stalled[name] > 0 && stalled[name] < 4 && rng.Intn(2) == 0)) {
 					o.Kind = "timeout"
 				}
 			}
@@ -1034,6 +1077,11 @@ func (x *Exec) randomRun(r *Random) {
 		}
 		if g.Kind == "dial" && g.Info["cancelled"].(bool) {
 			o.Kind = "cancelled"
+		}
+		if g.Kind == "read" && o.Kind == "timeout" {
+			stalled[name]++
+		} else if g.Kind == "read" {
+			stalled[name] = 0
 		}
 		x.emit(sim.Ev{"e": "step", "i": n + 1, "p": name, "at": g.Site, "o": o.Kind, "n": o.N})
 		x.W.S.Release(name, o)
